@@ -108,7 +108,7 @@ def streams(ctx):
             L2 = L
         t, d = render.go_mod(deps, L2); add_doc("go", t, d, gvs, ("go",))
         # workflow (unquoted refs only here; quoted ones are a recorded finding of C05)
-        L3 = dict(L); L3["quote"] = ""; L3["flow"] = False      # flow-style steps are not extracted at all: C04's recorded finding F-C04-10
+        L3 = dict(L); L3["quote"] = ""
         steps = [("uses", "actions/checkout@v1.0.0", None, ("actions/checkout", "v1.0.0", None)), ("run", "", None, None),
                  ("uses", "actions/setup-node@v1", None, ("actions/setup-node", "v1", None)), ("local", "./.github/actions/x", None, None)]
         t, d = render.workflow(steps, L3); add_doc("gha", t, d, gvs, ("gha",))
